@@ -134,6 +134,7 @@ func c11Invariants(L []lexer.Token, el map[lexer.TokenType]bool, named bool, n *
 func c11Child(c *mon.Child) {
 	if c.Batch == 0 {
 		c11Parseable(c)
+		c11CustomNotes(c)
 	}
 	nInputs := c.N(120, 240)
 	ks := []int{0, 1, 2, 5, participle.MaxLookahead, -1}
